@@ -164,6 +164,23 @@ Definition instantiate (a : modarg) (pkg core tail : modpath) (k : nat) : option
   | _ => None
   end.
 
+(* RenderContext.add_import / add_conditional_import first "repair incomplete paths": with output package
+   "pyapis.business", a logical module that starts with "business." gets "pyapis." prepended.  On components:
+   the package's tail (all but its first component) is a proper prefix of the module. *)
+Definition repairs (pkg m : modpath) : bool :=
+  match tl pkg with
+  | [] => false
+  | sfx => prefix_parts sfx m && (length sfx <? length m)%nat
+  end.
+Definition repair (pkg m : modpath) : modpath :=
+  if repairs pkg m then match pkg with x :: _ => x :: m | [] => m end else m.
+(* what ends up registered for an import requested through the API *)
+Definition registered (pkg : modpath) (i : imp) : imp :=
+  match i_level i with
+  | O => mkImp O (repair pkg (i_parts i))
+  | S _ => i
+  end.
+
 (* sites that cannot be discharged: unaudited computed module expressions *)
 Definition classified (a : modarg) : bool :=
   match a with Computed false => false | _ => true end.
@@ -180,7 +197,7 @@ Definition static_ok (stdlib : list str) (a : modarg) : bool :=
 Definition site_allowed (stdlib : list str) (pkg core tail : modpath) (k : nat) (s : site) : bool :=
   classified (s_arg s) &&
   match instantiate (s_arg s) pkg core tail k with
-  | Some i => allowed stdlib pkg core i
+  | Some i => allowed stdlib pkg core i && allowed stdlib pkg core (registered pkg i)
   | None => true
   end.
 
